@@ -51,6 +51,15 @@ class ExprMixin(object):
                 return SV(None, "callable", py=("specfun", name))
             if name in self.C.MACROS:
                 return SV(None, "callable", py=("macro", name))
+        if name in self.C.GLOBALS:
+            gl = self.C.GLOBALS[name]
+            if isinstance(gl, tuple) and gl[0] == "sentinel":
+                return SV(self.u.X(z3.IntVal(-1000 - gl[1])), "sentinel", py=gl[1])
+            if isinstance(gl, tuple) and gl[0] == "contract":
+                return SV(None, "callable", py=("contract", gl[1]))
+            if isinstance(gl, tuple) and gl[0] == "module":
+                return SV(None, "module", py=gl[1])
+            return self.lit_value(st, gl)
         if name in self.src.classes:
             return SV(None, "class", py=name)
         if name in KNOWN_MODULES:
@@ -67,6 +76,10 @@ class ExprMixin(object):
             gl = self.C.GLOBALS[name]
             if isinstance(gl, tuple) and gl[0] == "sentinel":
                 return SV(self.u.X(z3.IntVal(-1000 - gl[1])), "sentinel", py=gl[1])
+            if isinstance(gl, tuple) and gl[0] == "contract":
+                return SV(None, "callable", py=("contract", gl[1]))
+            if isinstance(gl, tuple) and gl[0] == "module":
+                return SV(None, "module", py=gl[1])
             return self.lit_value(st, gl)
         if hasattr(__import__("builtins"), name):
             return SV(None, "callable", py=("builtin", name))
@@ -266,7 +279,7 @@ class ExprMixin(object):
     def dynamic_classes(self, base):
         """Possible dynamic classes for `self` of the function under proof."""
         if self.cur_contract is not None and self.cur_contract.self_classes and \
-                base is self.entry_env.get("self"):
+                self.entry_env is not None and base is self.entry_env.get("self"):
             return self.cur_contract.self_classes
         return None
 
